@@ -199,4 +199,37 @@ def runFrom (s : State) : List Op → List (Seg × List Bool)
 
 def run (h : List Op) : List (Seg × List Bool) := runFrom State.init h
 
+/-! ### the signal handlers (sigtrap.go, sigtrap_posix.go) -/
+
+inductive Sig where
+  | term | int | quit | hup
+deriving DecidableEq, Repr
+
+/-- the first signal that is not ignored decides what the process does before it exits -/
+def deciding : List Sig → Option Sig
+  | [] => none
+  | .hup :: rest => deciding rest
+  | s :: _ => some s
+
+/-- a shutdown callback of a live instance returns an error (exit code 4) -/
+def shutdownFails (insts : List Inst) : Bool := insts.any fun i => i.cfg.shutdownErr
+
+/-- what the process does on the deciding signal, and its exit code (`none` = it keeps running):
+SIGTERM runs the shutdown callbacks (once-guarded) and then stops every server; SIGINT runs the shutdown callbacks;
+SIGQUIT exits at once; SIGHUP is ignored. -/
+def sigRun (s : State) (sigs : List Sig) : List Event × Option Nat :=
+  match deciding sigs with
+  | none => ([], none)
+  | some .quit => ([], some 0)
+  | some .int => ((step s (.signal 1)).2.events, some (if !s.once && shutdownFails s.insts then 4 else 0))
+  | some .term =>
+    ((step s (.signal 1)).2.events ++ (step (step s (.signal 1)).1 .stopAll).2.events,
+     some (if !s.once && shutdownFails s.insts then 4 else 0))
+  | some .hup => ([], none)
+
+/-- the process state after a history -/
+def stateAfter (s : State) : List Op → State
+  | [] => s
+  | op :: rest => stateAfter (step s op).1 rest
+
 end Casket.Lifecycle
